@@ -1619,7 +1619,8 @@ class Parameter(_ParameterBase):
                 # and has already superseded the previous one)
                 update_ref = partial(obj.param._update_ref, name, ref, not is_async)
             elif name in refs and not syncing and not (
-                    obj.param._TRIGGER and val is obj._param__private.values.get(name, self.default)):
+                    name in obj._param__private.parameters_state.get('TRIGGERING', ())
+                    and val is obj._param__private.values.get(name, self.default)):
                 # (unless param.trigger is merely re-announcing the value)
                 update_ref = partial(obj.param._update_ref, name, Undefined)
             if is_async or val is Undefined:
@@ -2909,9 +2910,12 @@ class Parameters:
         # Values the instance does not hold itself (it follows the class)
         stored = None if self_.self is None else self_.self._param__private.values
         followed = [] if stored is None else [name for name in params if name not in stored]
+        state = self_.self_or_cls._param__private.parameters_state
+        state['TRIGGERING'] = tuple(params)
         try:
             self_.update(dict(params, **triggers))
         finally:
+            state['TRIGGERING'] = ()
             self_._TRIGGER = False
             # Announcing a value is not setting it: the instance goes on
             # following the class for what it did not hold before
